@@ -134,6 +134,16 @@ func (conn *Conn) Serve() {
 	log.Debugf("%s: Connection Terminated", conn.sessionid)
 }
 
+// setDataConn makes socket the session's data connection. The one it
+// replaces (a second PASV, EPSV, PORT or EPRT) is closed: nothing refers to it
+// any more.
+func (conn *Conn) setDataConn(socket DataSocket) {
+	if conn.dataConn != nil {
+		conn.dataConn.Close()
+	}
+	conn.dataConn = socket
+}
+
 // Close will manually close this connection, even if the client isn't ready.
 func (conn *Conn) Close() {
 	//send quit message
